@@ -31,7 +31,7 @@ ANCHORS = ["asphalt.core._event:Signal.__get__", "asphalt.core._event:Signal.dis
 RULE = (
     "exhaustive small matrix: every class layout with 1-3 signal attributes x 1-3 instances x every first-access order of the (instance, "
     "attribute) pairs for <= 4 pairs (all permutations) on both backends; plus random layouts: 1-4 attributes spread over a base class and a "
-    "subclass (inherited / overriding), 1-3 event classes, owner kinds {plain, __slots__+__weakref__, frozen dataclass with equal values}, 1-4 "
+    "subclass (inherited / overriding), 1-3 event classes, owner kinds {plain, __slots__+__weakref__, frozen dataclass with equal values, falsy (__len__ == 0)}, 1-4 "
     "instances, random access order. "
     "Wrong-class events include the Event base class, non-events and an unrelated class with the declared class' module and qualified name; a successor owner allocated at a collected owner's address. "
     "Non-trivial: >= 2 channels; distinct = (layout, owner kind, access order, backend).")
@@ -80,6 +80,9 @@ def build_layout(spec: dict[str, Any]) -> tuple[Any, dict[str, Any], list[Any]]:
     if kind == "slots":
         base_ns["__slots__"] = ("__weakref__", "x")
         sub_ns["__slots__"] = ()
+    if kind == "falsy":
+        # a container-like owner that is empty at the moment (an empty registry): falsy, but an owner like any other
+        base_ns["__len__"] = lambda self: 0
     Base = type("Base", (), base_ns)
     if kind == "frozen":
         Base = dataclass(frozen=True)(type("Base", (), {**base_ns, "__annotations__": {"x": int}}))
@@ -413,7 +416,7 @@ def gen_case(idx: int, seed: int, tier: str) -> Any:
     order = list(range(n_attrs * n_inst))
     rng.shuffle(order)
     order = order[: rng.randint(0, len(order))]
-    return {"kind": "random", "layout": {"n_event_classes": n_ev, "owner_kind": rng.choice(["plain", "plain", "slots", "frozen"]), "subclass": sub, "attrs": attrs},
+    return {"kind": "random", "layout": {"n_event_classes": n_ev, "owner_kind": rng.choice(["plain", "plain", "slots", "frozen", "falsy"]), "subclass": sub, "attrs": attrs},
             "n_instances": n_inst, "order": order, "backend": rng.choice(["asyncio", "trio"])}
 
 
